@@ -1,5 +1,6 @@
 import Algobra.Proofs.Tables4
 import Algobra.Proofs.ExtField
+import Algobra.Model.Extra
 
 namespace Algobra
 namespace Tables
@@ -55,5 +56,57 @@ theorem ext_parse_valid (M : ExtField.Modulus h32 n g) (s : String) (v : UPoly N
     exact hf
 
 end ExtParse
+
+/-! ## the driver-level operations of Model/Extra.lean -/
+section Extra
+variable {α : Type} {env env' : Env α} {V : Nat → α → Prop} (h : EnvAgreeB env env' V)
+include h
+
+theorem escrOp_agree (st : St α) (f : Nat) : escrOp env' st f = escrOp env st f := by
+  unfold escrOp; rw [(h.u.base.agree f).card]
+
+theorem tcheckOp_agree (st : St α) (f : Nat) : tcheckOp env' st f = tcheckOp env st f := by
+  unfold tcheckOp; rw [(h.u.base.agree f).card]
+
+theorem quotient1Op_agree (st : St α) (n : Nat) : quotient1Op env' st n = quotient1Op env st n := by
+  unfold quotient1Op bring; rw [h.bring']; rfl
+
+theorem quotient2Op_agree (desc : FieldDesc) {st : St α} (hs : StoreOK4 V st) (n : Nat) :
+    quotient2Op env' desc st n = quotient2Op env desc st n := by
+  unfold quotient2Op
+  rw [(step_full_agree h desc hs (.iXform "quotient" n) rfl).1]
+
+theorem quotientGens_V (o : Order) {id : BPoly.Ideal α} (hid : B.AllMM (V 0) id.gens) :
+    B.OptMM (V 0) (BPoly.quotientGens (env.fld 0) o id) := by
+  have A := h.u.base.agree 0
+  have C := h.u.base.closed 0
+  unfold BPoly.quotientGens
+  obtain ⟨-, hv⟩ := B.groebnerBasis_par A C o hid
+  split
+  · exact fun l hl => by cases hl; exact hid
+  · cases hg : id.groebnerBasis (env.fld 0) o with
+    | none => exact fun l hl => by cases hl
+    | some gb =>
+      obtain ⟨-, hv2⟩ := B.reduceBasis_par A C o (hv gb hg)
+      cases hr : gb.reduceBasis (env.fld 0) o with
+      | none => exact fun l hl => by dsimp only at hl; rw [hr] at hl; cases hl
+      | some r => exact fun l hl => by dsimp only at hl; rw [hr] at hl; cases hl; exact hv2 r hr
+
+/-- `quotient iN`: same store, same remembered generators, same reply; store and remembered
+    generators stay valid -/
+theorem quotientOp_agree (desc : FieldDesc) {stq : St α × Option (List (BPoly α))}
+    (hs : StoreOK4 V stq.1) (hq : B.OptMM (V 0) stq.2) (n : Nat) :
+    quotientOp env' desc stq n = quotientOp env desc stq n ∧
+      StoreOK4 V (quotientOp env desc stq n).1.1 ∧ B.OptMM (V 0) (quotientOp env desc stq n).1.2 := by
+  obtain ⟨e, hv⟩ := step_full_agree h desc hs (.iXform "quotient" n) rfl
+  unfold quotientOp
+  simp only [F0, bord_eq h]
+  rw [e, B.quotientGens_congr (h.u.base.agree 0) (h.u.base.closed 0) (bord env 0) (iGet_ok hs n)]
+  refine ⟨rfl, hv, ?_⟩
+  split
+  · exact quotientGens_V h _ (iGet_ok hs n)
+  · exact hq
+
+end Extra
 end Tables
 end Algobra
